@@ -2,7 +2,7 @@
      ser E SPEC VALUE      -> OK <hex> | ERR
      de E POD SPEC HEX     -> OK <value> <bytes-left> | ERR
      info SPEC             -> <wf> <delimited> <min_size> <calc_size|N>
-     dom POD SPEC VALUE    -> 0 | 1
+     dom E POD SPEC VALUE  -> 0 | 1
      utf8 HEX              -> 0 | 1
    E is < or >, POD is 0/1, numbers are hexadecimal (optionally signed), byte strings are
    hex atoms ("-" = empty), SPEC / VALUE are s-expressions with ( ) as separate tokens. *)
@@ -90,8 +90,11 @@ let rec spec_of (x:sx) : spec =
   | L [A "uuid"] -> SUUID
   | L [A "null"] -> SNull
   | L (A "tuple" :: ss) -> STuple (List.map spec_of ss)
+  | L (A "coord" :: _ :: ss) -> STuple (List.map spec_of ss)          (* TupleCoord family = tuple of components *)
+  | L (A "dataclass" :: fs) ->                                         (* Dataclass = Template + record adapter *)
+    STemplate (List.map (fun f -> match f with L [n; s] -> (n_of_hex (atom n), spec_of s) | _ -> failwith "field") fs, false, true)
   | L (A "template" :: skip :: fs) ->
-    STemplate (List.map (fun f -> match f with L [n; s] -> (n_of_hex (atom n), spec_of s) | _ -> failwith "field") fs, flag skip)
+    STemplate (List.map (fun f -> match f with L [n; s] -> (n_of_hex (atom n), spec_of s) | _ -> failwith "field") fs, flag skip, false)
   | L [A "coll"; k; s] -> SCollection (lenk_of k, spec_of s)
   | L [A "opt"; s] -> SOptPrefixed (spec_of s)
   | L [A "adapter"; a; s] -> SAdapter (adapter_of a, spec_of s)
@@ -102,6 +105,10 @@ let rec spec_of (x:sx) : spec =
         | L [A "none"; s] -> (None, spec_of s)
         | L [k; s] -> (Some (n_of_hex (atom k)), spec_of s)
         | _ -> failwith "choice") cs)
+  | L [A "optflagged"; f; L [A "none"]; mask; sp] ->
+    SOptFlagged (n_of_hex (atom f), None, z_of_hex (atom mask), spec_of sp)
+  | L [A "optflagged"; f; L tbl; mask; sp] ->
+    SOptFlagged (n_of_hex (atom f), Some (tbl_of tbl), z_of_hex (atom mask), spec_of sp)
   | L (A "enumswitch" :: L tbl :: strict :: k :: w :: cs) ->
     SEnumSwitch (tbl_of tbl, flag strict, iprim_of k w,
                  List.map (fun c -> match c with L [z; s] -> (z_of_hex (atom z), spec_of s) | _ -> failwith "choice") cs)
@@ -115,13 +122,21 @@ and tbk_of x = match x with
   | L [A "greedy"] -> TBGreedy
   | L [A "array"; k; w] -> TBArray (iprim_of k w)
   | L [A "fixed"; n] -> TBFixed (n_of_hex (atom n))
-  | L [A "term"; ts] -> TBTerm (nlist ts)
+  | L [A "term"; ts; sk] -> TBTerm (nlist ts, flag sk)
   | _ -> failwith "tbk"
-and adapter_of x = match x with
+and sadapter_of x = match x with
   | L [A "bool"] -> ABool
   | L (A "enum" :: strict :: tbl) -> AEnum (tbl_of tbl, flag strict)
   | L (A "flag" :: tbl) -> AFlag (tbl_of tbl)
-  | _ -> failwith "adapter"
+  | L [A "opaque"; id] -> AOpaqueInt (n_of_hex (atom id))
+  | _ -> failwith "sadapter"
+and adapter_of x = match x with
+  | L (A "bitfield" :: sh :: fs) ->
+    ABitField (List.map (fun f -> match f with
+        | L [n; bits; L [A "none"]] -> ((n_of_hex (atom n), n_of_hex (atom bits)), None)
+        | L [n; bits; fa] -> ((n_of_hex (atom n), n_of_hex (atom bits)), Some (sadapter_of fa))
+        | _ -> failwith "bitfield entry") fs, flag sh)
+  | _ -> ASimple (sadapter_of x)
 
 let rec value_of (x:sx) : value =
   match x with
@@ -171,10 +186,10 @@ let handle (line:string) : string =
     let s = spec_of sp in
     Printf.sprintf "%d %d %s %s" (if wf s then 1 else 0) (if delimited s then 1 else 0)
       (hex_of_n (min_size s)) (match calc_size s with Some n -> "S" ^ hex_of_n n | None -> "N")
-  | "dom" :: pod :: rest ->
+  | "dom" :: e :: pod :: rest ->
     let (sp, r1) = parse_one rest in
     let (vl, _) = parse_one r1 in
-    if domb (pod = "1") (spec_of sp) (value_of vl) then "1" else "0"
+    if domb (endian e) (pod = "1") (spec_of sp) [] (value_of vl) then "1" else "0"
   | "utf8" :: [h] -> if utf8_ok (bytes_of_hex h) then "1" else "0"
   | _ -> "?"
 
